@@ -31,6 +31,8 @@ CONSTANTS NU,        \* use the first NU units of UnitList
           TrOnly,    \* also enumerate transposed arrays whose coordinates were registered in the final order
           AxisBy,    \* "dims": set_value_at_pos takes the axis number from array.dims (get_axis_num)      [the code]
                      \* "indexes": from the position in list(array.indexes)                  [history: seeded defect sb2]
+          LookupBy,  \* "search": the index is found by comparing with the coordinates [the code]
+                     \* "step_attr": computed from the step ATTRIBUTE when there is one [history: seeded defect C20-r3sb1]
           StepPrec,  \* "step": an explicit step wins over samplerate [the code, the docstring] / "samplerate" [history: seeded defect r2sb1]
           QueryCast  \* "none": the lookup compares the query as given                                      [the code]
                      \* "coord_dtype": it first converts the query to the coordinate dtype    [history: seeded defect sb1]
@@ -67,8 +69,22 @@ Positions(n) == {Tk * k : k \in 0..(n - 1)} \cup {Tk * k + 1 : k \in 0..(n - 1)}
 \* axis); float32 (for the start 0 only, to bound the enumeration)
 Dtypes(s, a4) == {"f8"} \cup (IF s[2] = 1 /\ a4 % 4 = 0 THEN {"i8", "i4"} ELSE {}) \cup (IF a4 = 0 THEN {"f4"} ELSE {})
 IntAxis(x)    == x.dt \in {"i8", "i4"}
-IndexCases == {x \in [kind : {"index"}, s : Units, a4 : Starts, dt : {"f8", "f4", "i8", "i4"}, n : 1..MaxN, p : -4..(Tk * MaxN), re : BOOLEAN] :
-                 x.p \in Positions(x.n) /\ x.dt \in Dtypes(x.s, x.a4)}
+\* What the coordinate's attributes say versus what the coordinates are.  The bracket is defined by the coordinates:
+\*   sa = <<>>: no step attribute;  sa = <<<<p, q>>>>: step attribute = p/q times the real spacing (1/1: it matches;
+\*        1/2, 1/3: an axis subsampled with isel(slice(None, None, k)), which keeps the attributes; 2/1: a stale coarser step)
+\*   ir = 0: regular axis;  ir = 1, 2: irregular axis, coordinate i at a + Lat(ir, i) * s (built with an explicit step=)
+\* Ticks are ORDER positions (coordinate i at Tk*i, 8k+4 between coordinates k and k+1): the lookup only compares, so the
+\* machine and Req are the same for every strictly increasing axis; the real spacing only enters the seeded variant.
+Lat(ir, k) == IF ir = 0 THEN k ELSE IF ir = 1 THEN (k * (k + 1)) \div 2 ELSE k + k \div 2
+Matching  == <<<<1, 1>>>>
+AxisVars  == {<<sa, 0>> : sa \in {<<>>, <<<<1, 2>>>>, <<<<1, 3>>>>, <<<<2, 1>>>>}} \cup {<<sa, ir>> : sa \in {<<>>, Matching}, ir \in {1, 2}}
+IndexCases == UNION {{[kind |-> "index", s |-> u, a4 |-> a4, dt |-> dt, n |-> n, p |-> p, re |-> re, sa |-> Matching, ir |-> 0] :
+                         dt \in Dtypes(u, a4), p \in Positions(n), re \in BOOLEAN} : u \in Units, a4 \in Starts, n \in 1..MaxN}
+              \cup
+              \* attributes that disagree with the coordinates: a sub-universe (first two units, first start, raise mode)
+              UNION {{[kind |-> "index", s |-> UnitList[u], a4 |-> StartList[1], dt |-> dt, n |-> n, p |-> p, re |-> TRUE, sa |-> v[1], ir |-> v[2]] :
+                         dt \in Dtypes(UnitList[u], StartList[1]) \cap {"f8", "i8"}, p \in Positions(n), v \in AxisVars} : u \in 1..2, n \in 2..MaxN}
+IndexCasesOK == {x \in IndexCases : x.p \in Positions(x.n) /\ x.dt \in Dtypes(x.s, x.a4)}
 
 SetPositions(n) == {Tk * k : k \in 0..(n - 1)} \cup {Tk * k + 4 : k \in 0..(n - 2)} \cup {-4, Tk * (n - 1) + 4}
 Shapes == UNION {IF d = 1 THEN {<<x>> : x \in 1..MaxSize}
@@ -99,14 +115,23 @@ SetCaseOK(x) == /\ (~IsNone(x.nc) => IsNone(x.q[Some(x.nc)]))                 \*
                 /\ (~Plain(<<x.reg, x.tr>>, Len(x.sh)) => x.s = UnitList[1] /\ x.dt = "f8" /\ IsNone(x.nc) /\ OnCoords(x.sh, x.q))
                 /\ (x.dt # "f8" => Plain(<<x.reg, x.tr>>, Len(x.sh)) /\ x.s = UnitList[1] /\ Len(x.sh) <= 2 /\ IsNone(x.nc))
                 /\ (~IsNone(x.nc) => Plain(<<x.reg, x.tr>>, Len(x.sh)) /\ x.s = UnitList[1] /\ x.dt = "f8" /\ OnCoords(x.sh, x.q))
+                /\ (~(x.sa = Matching /\ x.ir = 0) => /\ Plain(<<x.reg, x.tr>>, Len(x.sh)) /\ x.s = UnitList[1] /\ x.dt = "f8"
+                                                      /\ IsNone(x.nc) /\ Len(x.sh) <= 2)
 \* (a filtered set, not a conjunct of Init: TLC would enumerate the disjunctions of the filter as branches)
 SetCasesFor(s, sh, dt) ==
-    {x \in {[kind |-> "set", s |-> s, dt |-> dt, sh |-> sh, q |-> q, vm |-> vm, reg |-> lay[1], tr |-> lay[2], nc |-> nc] :
-               q \in Queries(sh), vm \in {"scalar", "array"}, lay \in Layouts(Len(sh)), nc \in NoCoord(sh)} : SetCaseOK(x)}
+    LET d    == Len(sh)
+        sub  == s = UnitList[1] /\ dt = "f8"                          \* the sub-universe that carries the new dimensions
+        Rec(q, vm, lay, nc, v) == [kind |-> "set", s |-> s, dt |-> dt, sh |-> sh, q |-> q, vm |-> vm, reg |-> lay[1], tr |-> lay[2],
+                                   nc |-> nc, sa |-> v[1], ir |-> v[2]]
+        lays == IF sub THEN Layouts(d) ELSE {<<IdP(d), IdP(d)>>}
+        ncs  == IF sub THEN NoCoord(sh) ELSE {<<>>}
+        avs  == IF sub /\ d <= 2 THEN {<<<<>>, 0>>, <<<<<<1, 2>>>>, 0>>, <<Matching, 1>>} ELSE {}
+    IN  {x \in {Rec(q, vm, lay, nc, <<Matching, 0>>) : q \in Queries(sh), vm \in {"scalar", "array"}, lay \in lays, nc \in ncs} : SetCaseOK(x)}
+        \cup {x \in {Rec(q, vm, <<IdP(d), IdP(d)>>, <<>>, v) : q \in Queries(sh), vm \in {"scalar", "array"}, v \in avs} : SetCaseOK(x)}
 R0 == [es |-> <<0, 1>>, len |-> 0, k |-> "none", v |-> -1, ix |-> <<>>, hit |-> TRUE, after |-> <<>>]
 Init == /\ pc = "start" /\ i = 0
         /\ \/ c \in RangeCasesOK
-           \/ c \in IndexCases
+           \/ c \in IndexCasesOK
            \/ \E s \in SetUnits, sh \in Shapes, dt \in {"f8", "i8", "i4"} : c \in SetCasesFor(s, sh, dt)
         /\ r = IF c.kind = "set" THEN [R0 EXCEPT !.ix = [k \in 1..Len(c.sh) |-> <<>>]] ELSE R0
 
@@ -143,8 +168,19 @@ Check == /\ c.kind = "index" /\ pc = "start"
                  /\ r' = IF c.re THEN [r EXCEPT !.k = "raise"]
                          ELSE IF c.p < 0 THEN [r EXCEPT !.k = "int", !.v = 0]
                          ELSE [r EXCEPT !.k = "int", !.v = c.n]
-            ELSE pc' = "scan" /\ r' = r
+            ELSE pc' = (IF LookupBy = "step_attr" /\ ~IsNone(c.sa) THEN "fast" ELSE "scan") /\ r' = r
          /\ UNCHANGED <<c, i>>
+\* seeded variant: index = min(round((v - start) / step_attr), n - 1), minus one if that coordinate is > v.
+\* (v - start) / step_attr = (real offset in steps) / (p/q); the real offset of the query, in eighths of a step:
+RealOff(x) == LET k == x.p \div Tk  rr == x.p % Tk IN
+              IF rr = 4 /\ k >= 0 /\ k < x.n - 1 THEN 4 * (Lat(x.ir, k) + Lat(x.ir, k + 1))        \* midpoint
+              ELSE IF rr = Tk - 1 THEN Tk * Lat(x.ir, k + 1) - 1 ELSE Tk * Lat(x.ir, k) + rr
+RoundDiv(a, b) == (2 * a + b) \div (2 * b)
+Fast  == /\ c.kind = "index" /\ pc = "fast"
+         /\ LET sa == Some(c.sa)
+                g  == Min(RoundDiv(RealOff(c) * sa[2], Tk * sa[1]), c.n - 1)
+            IN  r' = [r EXCEPT !.k = "int", !.v = IF Tk * g > c.p THEN g - 1 ELSE g]
+         /\ pc' = "done" /\ UNCHANGED <<c, i>>
 \* The query as the lookup sees it.  On an integer axis (qs = 1, a = a4/4 an integer) values are counted in eighths:
 \* coordinate j at Tk*j*ps, the query at p*ps, both relative to a; absolute value of the query = 2*a4 + p*ps eighths.
 \* Converting it to the integer dtype first truncates toward zero (-1.5 -> -1): the seeded defect sb1.
@@ -182,7 +218,7 @@ Write == /\ c.kind = "set" /\ pc = "start" /\ i = Len(c.sh)
                      IN  IF Addressed(r.ix, idx) THEN VAt(c.sh, r.ix, idx, ValueOf(c)) ELSE f]]
          /\ pc' = "done" /\ UNCHANGED <<c, i>>
 
-Next == Resolve \/ Arange \/ TrimDrop \/ TrimKeep \/ Check \/ Scan \/ Found \/ Lookup \/ Write
+Next == Fast \/ Resolve \/ Arange \/ TrimDrop \/ TrimKeep \/ Check \/ Scan \/ Found \/ Lookup \/ Write
 Spec == Init /\ [][Next]_vars /\ WF_vars(Next)
 
 Export == (pc = "start" /\ i = 0) => PrintT(<<"CASE", ToJson(c)>>)
